@@ -54,11 +54,11 @@ Theorem C03_transition_log : forall d i s e t s1 cur nxt s2 s3 k,
   f_next s3 = None -> assoc nxt (fd_timed d) = None -> chain_limit d = S k ->
   f_state s3 = Some nxt ->
   exists final, fsm_event d i s e t = (final, Ok true) /\
-    f_state final = Some nxt /\ f_out final = (if py_eq (f_out s3) (VStr nxt) then f_out s3 else VStr nxt) /\
+    f_state final = Some nxt /\ f_out final = (if py_eq (f_out s3) (calc_out i s3 nxt) then f_out s3 else calc_out i s3 nxt) /\
     f_log final = f_log s3
-      ++ (if py_eq (f_out s3) (VStr nxt) then [] else [LOut (f_out s3) (VStr nxt)])
+      ++ (if py_eq (f_out s3) (calc_out i s3 nxt) then [] else [LOut (f_out s3) (calc_out i s3 nxt)])
       ++ (if str_mem nxt (i_on_enter i)
-          then [LOnEnter nxt (if py_eq (f_out s3) (VStr nxt) then f_out s3 else VStr nxt)] else []).
+          then [LOnEnter nxt (if py_eq (f_out s3) (calc_out i s3 nxt) then f_out s3 else calc_out i s3 nxt)] else []).
 Proof. exact transition_log. Qed.
 
 Theorem C03_chain_invisible : forall n d i s vis nxt s1 r,
